@@ -275,9 +275,16 @@ class GridInterp:
             return
         if isinstance(tgt, ast.Subscript):
             base = tgt.value
-            cur = self.ev(base)
+            self_attr = isinstance(base, ast.Attribute) and isinstance(base.value, ast.Name) and base.value.id == "self"
+            self.quiet_get = self_attr and not aug      # a plain store into self.x[...] does not read x
+            try:
+                cur = self.ev(base)
+            finally:
+                self.quiet_get = False
             idx = self.index_items(tgt.slice, cur)
             new = self.store_into(cur, idx, v, aug, tgt)
+            if new is cur and self_attr:
+                self.events.append(("set", base.attr, self.cur))
             if new is not cur:
                 # rebinding (plain A values are immutable here)
                 if isinstance(base, ast.Attribute) and isinstance(base.value, ast.Name) and base.value.id == "self":
@@ -419,6 +426,8 @@ class GridInterp:
         self.err(e, "unbound name")
 
     def get_self(self, name, node):
+        if not getattr(self, "quiet_get", False):
+            self.events.append(("get", name, self.cur))
         if name in self.attrs:
             return self.attrs[name]
         d = self.default_attr(name)
